@@ -26,7 +26,7 @@ class UnifiedScaledExponential(UnifiedAutocorrelation):
 
     def autocorrelation_function(self, r):
         """compute the real space autocorrelation function"""
-        return self.corr_func_at_origin * np.exp(-r * self.corr_length)
+        return self.corr_func_at_origin * np.exp(-r / self.corr_length)
 
     def ft_autocorrelation_function(self, k):
         """compute the fourier transform of the autocorrelation function analytically"""
